@@ -10,6 +10,7 @@ import (
 	"fortio.org/log"
 	"fortio.org/sets"
 	"grol.io/grol/ast"
+	"grol.io/grol/simhook"
 	"grol.io/grol/token"
 	"grol.io/grol/trie"
 )
@@ -166,6 +167,7 @@ func (e *Environment) SaveGlobals(to io.Writer, maxValueLen int) (int, error) {
 					return n, err
 				}
 				n++
+				simhook.Point("save:binding")
 				continue
 			}
 			// Anonymous function are like other variables.
@@ -182,6 +184,7 @@ func (e *Environment) SaveGlobals(to io.Writer, maxValueLen int) (int, error) {
 			return n, err
 		}
 		n++
+		simhook.Point("save:binding")
 	}
 	return n, nil
 }
